@@ -196,6 +196,10 @@ def ripple(ctx, t):
         n = na[0].bits // SEG
         _, c = _chain(ctx, na[0], na[1], tm.TRUE if op == "usubo" else tm.FALSE, n, op == "usubo")
         r = tm.unop("not", c) if op == "usubo" else c
+    elif op in ("uaddo", "usubo") and na[0].bits == SEG:
+        # the 8-bit carry / borrow in the same spelling the segment chain uses (one shared carry node)
+        _, c = _chain(ctx, na[0], na[1], tm.TRUE if op == "usubo" else tm.FALSE, 1, op == "usubo")
+        r = tm.unop("not", c) if op == "usubo" else c
     elif op == "ult" and na[0].op == "k" and _pow2(na[0].args[0] + 1) and na[1].bits > SEG:
         # 2^k - 1 < x   <=>   (x >> k) != 0
         k = (na[0].args[0] + 1).bit_length() - 1
